@@ -133,7 +133,8 @@ def compute_inexact_flow_decomp_safe_paths(
             while R+1 < len(path):
                 rightdiff = upper(path[R], path[R+1]) - sum(upper(u, v) for u, v in G.out_edges(path[R]))
 
-                if inexact_excess + rightdiff <= 0:
+                # (with float values an excess that is 0 comes out as 5.55e-17: compared up to a tolerance)
+                if inexact_excess + rightdiff <= 1e-9:
                     break
 
                 inexact_excess += rightdiff
@@ -142,7 +143,7 @@ def compute_inexact_flow_decomp_safe_paths(
                 path_not_suffix_of_previous = True
 
             # A window is safe only with positive excess flow (a single edge whose lower bound is 0 is in no decomposition path)
-            if path_not_suffix_of_previous and inexact_excess > 0:
+            if path_not_suffix_of_previous and inexact_excess > 1e-9:
                 safe_paths_set.add(tuple(safe_path.copy())) if no_duplicates else safe_paths_list.append(safe_path.copy())
 
             # Remove the left most edge of the safe path
